@@ -252,6 +252,13 @@ def fault_strategy(draw):
     elif fault == "value_no_hash":
         referenced = [k for k in val if any("{" + k + "}" in x for col in hedc for x in _strings(col))]
         c = pick(referenced or val)       # a column that another column references, when there is one
+        if not referenced and "{" not in doc[c]["HED"]:
+            # make another column reference it (legal in itself: the target holds no reference, the referrer is
+            # referenced by nobody)
+            free = [k for k in hedc if k != c and not any("{" + k + "}" in x for col in hedc for x in _strings(col))]
+            if free:
+                a = pick(free)
+                edit_some_string(a, lambda s: s + ", {" + c + "}")
         doc[c]["HED"] = doc[c]["HED"].replace("/#", "/3")
     elif fault == "value_two_hash":
         c = pick(val)
